@@ -492,6 +492,7 @@ func init() {
 		fmt.Printf("  C17: states=%d transitions=%d depth=%d exhaustive=%v %s\n", res.States, res.Transitions, res.DepthCompleted, res.Exhaustive, res.CapHit)
 		run.Set("bulk_key_cases", c17Bulk(run))
 		run.Set("join_stream_cases", c17JoinStream(run))
+		run.Set("two_node_datagram_cases", c17TwoNodes(run))
 		schedPass(run)
 		return run.Finish()
 	})
